@@ -96,6 +96,7 @@ type Case struct {
 	Checker      string    `json:"checker"` // default | exact
 	Persona      string    `json:"persona,omitempty"`
 	Mod          string    `json:"mod,omitempty"`         // "" | rewrite | window : a MessageModifier that works in place on the slice it is given
+	EmptyRD      bool      `json:"empty_rd,omitempty"`    // no return-directly tool: ToolReturnDirectly is an empty non-nil map instead of nil
 	RuntimeMax   int       `json:"runtime_max,omitempty"` // > 0: call option compose.WithRuntimeMaxSteps through agent.WithComposeOptions
 	ToolOpt      bool      `json:"tool_opt,omitempty"`    // call option react.WithToolOptions(marker): every tool must receive it
 	Future       bool      `json:"future,omitempty"`      // call option react.WithMessageFuture: the messages handed out are observed
@@ -103,11 +104,11 @@ type Case struct {
 	ToolList     []ToolDef `json:"tool_list,omitempty"`   // call option compose.WithToolList through agent.WithComposeOptions: replaces the tools of the tools node for this call
 	Host         *HostCase `json:"host,omitempty"`        // a host multi-agent case (host.go); only input, checker, model_api, index_in_whole, pipe_stream, exported are used besides
 	SetupFault   string    `json:"setup_fault,omitempty"` // nomodel | infofail | bindfail : NewAgent must return an error (no run)
-	ModelAPI     string    `json:"model_api"` // chat | toolcalling
+	ModelAPI     string    `json:"model_api"`             // chat | toolcalling
 	IndexInWhole bool      `json:"index_in_whole,omitempty"`
 	IndexBase    int       `json:"index_base,omitempty"`   // the ToolCall.Index the model gives the i-th call of a message is
 	IndexStride  int       `json:"index_stride,omitempty"` // IndexBase + IndexStride*i (stride 0 = 1): numbering from 1, with gaps, ...
-	PipeStream   bool      `json:"pipe_stream,omitempty"` // the model streams through a Pipe (else array-backed)
+	PipeStream   bool      `json:"pipe_stream,omitempty"`  // the model streams through a Pipe (else array-backed)
 	Input        []Msg     `json:"input"`
 	Script       []Step    `json:"script"`
 	Concurrent   int       `json:"concurrent,omitempty"`
@@ -557,7 +558,7 @@ func buildAgent(c *Case) (*react.Agent, error) {
 			return "unk:" + name + ":" + input, nil
 		}
 	}
-	if len(c.RD) > 0 {
+	if len(c.RD) > 0 || c.EmptyRD {
 		cfg.ToolReturnDirectly = map[string]struct{}{}
 		for _, n := range c.RD {
 			cfg.ToolReturnDirectly[n] = struct{}{}
@@ -639,19 +640,19 @@ type Out struct {
 }
 
 type RunObs struct {
-	Mode     string    `json:"mode"` // generate | stream
-	Exported bool      `json:"exported,omitempty"` // run as a node of a parent graph
-	Inputs   [][]Msg   `json:"inputs"`
-	Rounds   [][]TCall `json:"rounds"`
-	Out      Out       `json:"out"`
-	Mutated  bool      `json:"mutated,omitempty"`      // a history slice handed to the model changed afterwards
-	InMut    bool      `json:"input_mutated,omitempty"` // the caller's input slice / messages changed
-	OptLost  int       `json:"opt_lost,omitempty"`     // tool executions that did not receive the WithToolOptions marker
-	WrongInst int      `json:"wrong_instance,omitempty"` // tool executions on an instance of the wrong tool list (configured vs call-time WithToolList)
-	HasEmits bool      `json:"has_emits,omitempty"`    // the run used WithMessageFuture
-	Emits    []Msg     `json:"emits,omitempty"`        // messages handed out by the future (tool messages of a round in call order)
-	FutEnd   string    `json:"future_end,omitempty"`   // closed | error | hang
-	LateErr  bool      `json:"late_err,omitempty"`     // Stream returned a stream and the error came while it was read
+	Mode      string    `json:"mode"`               // generate | stream
+	Exported  bool      `json:"exported,omitempty"` // run as a node of a parent graph
+	Inputs    [][]Msg   `json:"inputs"`
+	Rounds    [][]TCall `json:"rounds"`
+	Out       Out       `json:"out"`
+	Mutated   bool      `json:"mutated,omitempty"`        // a history slice handed to the model changed afterwards
+	InMut     bool      `json:"input_mutated,omitempty"`  // the caller's input slice / messages changed
+	OptLost   int       `json:"opt_lost,omitempty"`       // tool executions that did not receive the WithToolOptions marker
+	WrongInst int       `json:"wrong_instance,omitempty"` // tool executions on an instance of the wrong tool list (configured vs call-time WithToolList)
+	HasEmits  bool      `json:"has_emits,omitempty"`      // the run used WithMessageFuture
+	Emits     []Msg     `json:"emits,omitempty"`          // messages handed out by the future (tool messages of a round in call order)
+	FutEnd    string    `json:"future_end,omitempty"`     // closed | error | hang
+	LateErr   bool      `json:"late_err,omitempty"`       // Stream returned a stream and the error came while it was read
 }
 
 // what is run: the agent itself, or a parent graph holding the exported agent graph as its only node
@@ -727,6 +728,15 @@ func runAgent(tg *target, c *Case, mode string) (o RunObs) {
 	rc := &recorder{}
 	ctx := context.WithValue(context.Background(), recKey{}, rc)
 	in := inputMsgs(c)
+	// the caller's slice has spare capacity (it was built with append): whoever keeps it and appends to
+	// it writes into the caller's backing array - the elements beyond its length are watched, too
+	spare := &schema.Message{Role: schema.User, Content: "<spare capacity of the caller's slice>"}
+	inFull := make([]*schema.Message, len(in)+3)
+	copy(inFull, in)
+	for i := len(in); i < len(inFull); i++ {
+		inFull[i] = spare
+	}
+	in = inFull[:len(in)]
 	inBefore := renderAll(in)
 	inPtrs := append([]*schema.Message{}, in...)
 
@@ -871,6 +881,11 @@ func runAgent(tg *target, c *Case, mode string) (o RunObs) {
 	}
 	for i := range in {
 		if in[i] != inPtrs[i] {
+			o.InMut = true
+		}
+	}
+	for i := len(in); i < len(inFull); i++ {
+		if inFull[i] != spare {
 			o.InMut = true
 		}
 	}
@@ -1557,9 +1572,27 @@ func genChunks(r *lib.Rng, c *Case, st *Step, order int) []Chunk {
 	}
 	for i, cl := range st.Calls {
 		pieces := splitString(r, cl.Args, r.Range(1, 3))
+		// one call in six: the call's first fragment carries only its id (or only its name, or neither),
+		// the rest arrives with the next fragment - fragments of one index are merged field by field
+		late := 0
+		if r.Chance(1, 6) {
+			late = r.Range(1, 3)
+			pieces = append([]string{""}, pieces...)
+		}
 		for j, p := range pieces {
 			f := Frag{Index: c.idx(i), Args: p}
-			if j == 0 {
+			switch {
+			case late == 0 && j == 0:
+				f.ID, f.Name = cl.ID, cl.Name
+			case late == 1 && j == 0:
+				f.ID = cl.ID
+			case late == 1 && j == 1:
+				f.Name = cl.Name
+			case late == 2 && j == 0:
+				f.Name = cl.Name
+			case late == 2 && j == 1:
+				f.ID = cl.ID
+			case late == 3 && j == 1:
 				f.ID, f.Name = cl.ID, cl.Name
 			}
 			fragChunks = append(fragChunks, Chunk{Frags: []Frag{f}})
@@ -1753,6 +1786,9 @@ func genCase(r *lib.Rng, tier string) *Case {
 	}
 	if r.Chance(1, 40) {
 		c.SetupFault = r.Pick([]string{"nomodel", "infofail", "bindfail"})
+	}
+	if len(c.RD) == 0 {
+		c.EmptyRD = r.Chance(1, 3)
 	}
 	return c
 }
@@ -2003,10 +2039,30 @@ func (engine) Run(ci any) lib.Result {
 		}
 	}
 	res.Tags = append(res.Tags, fmt.Sprintf("model-stream-empty-chunk-after-front:%v", innerEmpty))
+	switch {
+	case len(c.RD) > 0:
+		res.Tags = append(res.Tags, "return-directly-map:nonempty")
+	case c.EmptyRD:
+		res.Tags = append(res.Tags, "return-directly-map:empty-non-nil")
+	default:
+		res.Tags = append(res.Tags, "return-directly-map:nil")
+	}
+	lateName := false
+	for _, st := range c.Script {
+		seen := map[int]bool{}
+		for _, ch := range st.Chunks {
+			for _, f := range ch.Frags {
+				if !seen[f.Index] && f.Name == "" {
+					lateName = true
+				}
+				seen[f.Index] = true
+			}
+		}
+	}
+	res.Tags = append(res.Tags, fmt.Sprintf("model-stream-first-fragment-without-name:%v", lateName))
 	res.Nontrivial = len(gen.Rounds) >= 1
 	return res
 }
-
 
 // ---------------------------------------------------------------- shrinking
 
